@@ -230,3 +230,79 @@ def selector_map(F, fn_base, quantity, cur_version, version_side):
 def render(m):
     return {" & ".join("%s %s %d" % ("q", o, c) for o, c in sorted(k, key=lambda x: (x[1], x[0]))) or "always":
             sorted(v) for k, v in m.items()}
+
+
+SAMPLES = (1, 2, 255, 256, 257, 65535, 65536, 65537, 2097151, 2097152, 2097153, 16777216)
+
+
+def selector_samples(F, fn_base, quantity, cur_version, version_side):
+    """{sample value of the quantity: sorted tokens reached}: the function is *evaluated* (verif/evalcfg) with the
+    quantity pinned - whether it is a local, a getter or feeds a derived local (`max_index = n > 0 ? n - 1 : 0`) -
+    and the stream tokens (also those inside read functors / shared loop helpers written under the deciding
+    conditions) of the blocks that stay reachable are collected."""
+    from .evalcfg import explore
+    out = {}
+    for fn in F.find(fn_base):
+        VERSION_LOCALS["ids"] = version_locals(fn)
+        dead = set()
+        if version_side:
+            for b in fn.blocks.values():
+                if b.cond is None or len(b.succ) != 2:
+                    continue
+                tv = _version_truth(b.cond, cur_version)
+                if tv is None:
+                    continue
+                d = b.succ[1] if tv else b.succ[0]
+                if d is not None:
+                    dead.add((b.id, d))
+        sites = {}
+        in_loop = set()
+        for h, body, l in fn.loops():
+            in_loop |= body
+        for n, b, rk, ev in fn.calls():
+            tok = token_of(n)
+            if tok is not None and b in in_loop:
+                sites.setdefault(b, set()).add(tok)
+        for blk, rk, tree, ev in fn.roots():
+            if tree is None:
+                continue
+            for n in walk(tree):
+                if n.get("k") in ("lambda", "fn") and n.get("m") and F.by_m.get(n["m"]) is not None:
+                    for tok in _tokens_deep(F, F.by_m[n["m"]], 0, set()):
+                        sites.setdefault(n.get("b", blk.id), set()).add(tok)
+        for n, b, rk, ev in fn.calls():
+            if n.get("k") != "call" or token_of(n) is not None or n.get("virt"):
+                continue
+            if not (n.get("fn") or "").startswith(("draco::", "(anonymous")) or \
+                    strip_targs(n.get("fn") or "").startswith(("draco::DecoderBuffer::", "draco::EncoderBuffer::",
+                                                                "draco::DecodeSymbols", "draco::EncodeSymbols")):
+                continue
+            tg = F.targets(n)
+            if len(tg) != 1 or tg[0].key == fn.key:
+                continue
+            inner = set()
+            for h_, body_, l_ in tg[0].loops():
+                inner |= body_
+            for n2, b2, rk2, ev2 in tg[0].calls():
+                if b2 in inner and token_of(n2):
+                    sites.setdefault(b, set()).add(token_of(n2))
+        # the quantity on the reader side is whatever local is handed to set_<quantity>() (rename-proof)
+        qvars = set()
+        for n, b, rk, ev in fn.calls():
+            if strip_targs(n.get("fn") or "").rsplit("::", 1)[-1] == "set_" + quantity:
+                for a in n.get("args", [])[:1]:
+                    for x in walk(a):
+                        if x.get("k") == "var" and "d" in x:
+                            qvars.add(x["d"])
+        for q in SAMPLES:
+            got = set()
+
+            def on_block(b, env):
+                got.update(sites.get(b.id, ()))
+                return True
+            env0 = {("name", quantity): q, ("call", quantity): q}
+            for d_ in qvars:
+                env0[("v", d_)] = q
+            explore(fn, env0, on_block, dead_edges=dead)
+            out.setdefault(q, set()).update(got)
+    return {q: sorted(v) for q, v in out.items()}
